@@ -102,6 +102,52 @@ def storage_step(ctx, lmax):
     def same(a, b):
         return isinstance(a, sym.Sym) and isinstance(b, sym.Sym) and a.name == b.name and not a.over and not b.over
 
+    # ---- append on a storage of ANY length below 2^32 (opaque contents): the token's index is the old length, one value pushed
+    eng = mk_engine()
+    data = sym.Sym("data", "Vec<T>")
+    v0 = sym.Sym("v", "T")
+    res = eng.run(f_append, [sym.Ref(("h", "s"), (), True), v0], mem={("h", "s"): sym.Adt("sr::storage::Storage", None, [data])})
+    ctx.functions.update(eng.stats.functions)
+    n0 = eng.len_of(None, data)
+    small = z3.ULT(n0, z3.BitVecVal(1 << 32, 64))
+    bad = None
+    last_query = None
+    for r in res:
+        n_paths += 1
+        pc = list(r.pc) + [small]
+        if r.status != "return":
+            if q.check(pc, "append-any-length/panic")[0] != "unsat":
+                bad = "a panic edge is reachable: %s %s" % (r.status, r.info)
+                mdl = q.check(pc, "append-any-length/panic")[1]
+            continue
+        idx = token_index(eng, r.mem, r.value)
+        d1 = r.mem[("h", "s")].fields[0]
+        pushed = d1.over.get(("pushed",), ()) if isinstance(d1, sym.Sym) else None
+        shape_ok = isinstance(d1, sym.Sym) and d1.name == "data" and pushed is not None and len(pushed) == 1 and same(pushed[0], v0)
+        query = pc + [z3.ZeroExt(64 - idx.size(), idx) != n0] if shape_ok else pc
+        rr = q.check(query, "append-any-length")
+        if rr[0] != "unsat":
+            last_query = query
+            bad = "the returned index is not the previous length" if shape_ok else "the storage is not the old contents plus the value"
+            mdl = rr[1]
+    if bad is None:
+        ctx.ob("step/append/any-length-below-2^32", True)
+    else:
+        L = mdl.eval(n0, model_completion=True).as_long() if mdl is not None else 0
+        # the smallest storage that shows it (so that it can be replayed)
+        if mdl is not None and last_query:
+            opt = z3.Optimize()
+            opt.set("timeout", 60000)
+            for c_ in last_query:
+                opt.add(c_)
+            opt.minimize(n0)
+            if opt.check() == z3.sat:
+                L = opt.model().eval(n0, model_completion=True).as_long()
+        if L > (1 << 22):
+            ctx.ob("step/append/any-length-below-2^32", None, "%s for a storage of %d values: too large to replay natively" % (bad, L))
+        else:
+            confirm(ctx, "step/append/any-length-below-2^32", "append", [False] * L, bad)
+        return n_paths
     for L in range(0, lmax + 1):
         elems = [sym.Sym("e%d" % i, "T") for i in range(L)]
         v = sym.Sym("v", "T")
@@ -197,7 +243,10 @@ class _st:
 def confirm(ctx, tag, opname, eqs, what, lookup=None):
     """Replay the witness natively: a storage of len(eqs) values whose equality with the argument is as in the model."""
     rp = Replay()
-    ans = rp.ask("storage_step %s %s" % (opname, "".join("1" if e else "0" for e in eqs) or "-"))
+    pat = "".join("1" if e else "0" for e in eqs) or "-"
+    if len(eqs) > 64 and not any(eqs):
+        pat = "n%d" % len(eqs)
+    ans = rp.ask("storage_step %s %s" % (opname, pat))
     rp.close()
     L = len(eqs)
     first = eqs.index(True) if True in eqs else None
@@ -210,7 +259,7 @@ def confirm(ctx, tag, opname, eqs, what, lookup=None):
         ctx.ob(tag, False, "%s; native: %s, expected %s" % (what, ans, want))
         ctx.violation("storage/%s" % opname,
                       "%s on a storage of %d values, equal-to-argument pattern %s: %s; the real Storage answers %s, the property demands %s"
-                      % (opname, L, "".join("1" if e else "0" for e in eqs), what, ans, want),
+                      % (opname, L, pat if len(pat) <= 64 else pat[:61] + "...", what, ans, want),
                       {"op": opname, "eq_pattern": eqs, "native": ans, "expected": want})
     else:
         ctx.ob(tag, None, "model-only deviation (%s); the real code answers as specified: %s" % (what, ans))
@@ -223,7 +272,7 @@ def run(ctx):
     ctx.bounds.append("K: histories of <= %d operations, any operation kinds and any u8 values; instantiations Storage<u8>, Storage<Odd>, Storage<Keyed>" % n)
     ctx.bounds.append("M2: one step of append / fetch_or_append from every storage of length 0..%d with opaque values and an uninterpreted "
                       "equality; lookup through tokens 0..L-1" % lmax)
-    ctx.assumptions += ["outside the bound: storages of more than %d elements (M2) / histories of more than %d operations (K); u32 truncation of the index at 2^32 elements" % (lmax, n),
+    ctx.assumptions += ["outside the bound: fetch_or_append on storages of more than %d elements (M2; append: any length below 2^32) / histories of more than %d operations (K); u32 truncation of the index at 2^32 elements" % (lmax, n),
                         "CBMC unwinding assertions are on (a too-small unwind bound is a failure, not a pass)",
                         "M2 summary: Iterator::position = index of the first element the (real, MIR-executed) closure accepts; Vec::push/len/index built-in models"]
     ctx.trusted += ["Kani 0.68 / CBMC 6.11 (cadical)", "scenario code /verif/kani/src/storage.rs (array model)", "rustc MIR (generic, pre-monomorphisation)", "mirsym"]
